@@ -42,7 +42,7 @@ SPEC = {
     "components_real": ["fakesnow/* incl. transforms_merge", "sqlglot", "duckdb engine (in-memory)"],
     "components_stubbed": ["caller threads (statement-level order)"],
     "assumptions": ["statement-level atomicity here; torn MERGE under concurrency / kills is covered by C19 / C18"],
-    "mandatory_probes": {"any": ["merge_ok", "cond_on_target", "cond_on_source", "dup_target_keys", "null_key", "subquery_source", "merge_in_rolled_back_txn", "empty_target", "three_clauses"]},
+    "mandatory_probes": {"any": ["merge_ok", "cond_on_target", "cond_on_source", "dup_target_keys", "null_key", "subquery_source", "merge_in_rolled_back_txn", "empty_target", "three_clauses", "compound_condition"]},
 }
 
 HAZARDS = ["target_cond_dup_keys", "partial_failure", "helper_visible", "decimal_counts", "target_alias", "null_counts"]
@@ -57,14 +57,23 @@ def ref_merge(target: list[list[Any]], source: list[list[Any]], clauses: list[di
     out: list[list[Any]] = []
 
     def cond_ok(c: dict[str, Any] | None, t: list[Any] | None, s: list[Any]) -> bool:
+        # SQL three-valued logic collapsed to "is TRUE" is not compositional, so evaluate to True/False/None first
+        return cond3(c, t, s) is True
+
+    def cond3(c: dict[str, Any] | None, t: list[Any] | None, s: list[Any]) -> bool | None:
         if c is None:
             return True
+        if "or" in c or "and" in c:
+            vals = [cond3(x, t, s) for x in c.get("or") or c["and"]]
+            if "or" in c:
+                return True if any(v is True for v in vals) else None if any(v is None for v in vals) else False
+            return False if any(v is False for v in vals) else None if any(v is None for v in vals) else True
         if c["on"] == "source":
             v = s[2]
         else:
             v = t[2] if t is not None else None
         if v is None:
-            return False
+            return None
         return {"=": v == c["val"], ">": v > c["val"], "<": v < c["val"]}[c["op"]]
 
     matched_source: set[int] = set()
@@ -123,8 +132,14 @@ def render_merge(rng: Any, m: dict[str, Any], hz: dict[str, bool]) -> str:
     for c in m["clauses"]:
         cond = ""
         if c.get("cond"):
-            col = f"{s}.FLAG" if c["cond"]["on"] == "source" else f"{talias}.W"
-            cond = f" AND {col} {c['cond']['op']} {c['cond']['val']}"
+            def rc(x: dict[str, Any]) -> str:
+                if "or" in x:
+                    return "(" + " OR ".join(rc(y) for y in x["or"]) + ")"
+                if "and" in x:
+                    return "(" + " AND ".join(rc(y) for y in x["and"]) + ")"
+                return f"{s + '.FLAG' if x['on'] == 'source' else talias + '.W'} {x['op']} {x['val']}"
+
+            cond = f" AND {rc(c['cond'])}"
         if c["kind"] == "update":
             sets = f"V = {s}.V" + (f", W = {s}.FLAG" if c.get("set_w") else "")
             parts.append(f"{_kw(rng, 'WHEN MATCHED', lo)}{cond} {_kw(rng, 'THEN UPDATE SET', lo)} {sets}")
@@ -167,7 +182,7 @@ def gen(rng: Any, prop: str, tier: str) -> dict[str, Any]:
     ops.append({"s": "s0", "k": "exec", "sql": "CREATE TABLE BYS (K INT, V INT, W INT)", "tag": "setup"})
     if trows:
         vals = ", ".join(f"({'NULL' if r[0] is None else r[0]}, {r[1]}, {r[2]})" for r in trows)
-        ops.append({"s": "s0", "k": "exec", "sql": f"INSERT INTO TGT VALUES {vals}", "tag": "setup"})
+        ops.append({"s": "s0", "k": "exec", "sql": f"INSERT INTO TGT VALUES {vals}", "tag": "setup", "tgt_rows": trows})
     n_merges = rng.choice([1, 1, 2, 3])
     for mi in range(n_merges):
         sname = f"SRC{mi}"
@@ -194,9 +209,15 @@ def gen(rng: Any, prop: str, tier: str) -> dict[str, Any]:
             cond = None
             if rng.random() < 0.5:
                 on = "source" if (kind == "insert" or rng.random() < 0.5) else "target"
-                cond = {"on": on, "op": rng.choice(["=", ">", "<"]), "val": rng.choice([0, 1, 2])}
-                if on == "target" and not hz["target_cond_dup_keys"] and shape == "dups":
-                    cond["on"] = "source"
+                def simple(on2: str) -> dict[str, Any]:
+                    if on2 == "target" and not hz["target_cond_dup_keys"] and shape == "dups":
+                        on2 = "source"
+                    return {"on": on2, "op": rng.choice(["=", ">", "<"]), "val": rng.choice([0, 1, 2])}
+
+                cond = simple(on)
+                if rng.random() < 0.35:
+                    other = simple("source" if (kind == "insert" or rng.random() < 0.6) else "target")
+                    cond = {rng.choice(["or", "or", "and"]): [cond, other]}
             else:
                 seen_uncond[side] = True
             c: dict[str, Any] = {"kind": kind, "cond": cond}
@@ -228,6 +249,15 @@ def gen(rng: Any, prop: str, tier: str) -> dict[str, Any]:
 # --------------------------------------------------------------------------- execution + oracle
 
 
+def _cond_on(c: Any) -> str | None:
+    if not c:
+        return None
+    if "or" in c or "and" in c:
+        ons = {_cond_on(x) for x in (c.get("or") or c["and"])}
+        return "target" if "target" in ons else "source"
+    return c["on"]
+
+
 def v_(signature: str, clause: str, detail: Any) -> dict[str, Any]:
     return {"property": "C12", "signature": signature, "clause": clause, "detail": detail}
 
@@ -238,7 +268,7 @@ def run(case: dict[str, Any]) -> dict[str, Any]:
     cfg = case["config"]
     probes: dict[str, int] = {}
     violation = None
-    tgt: list[list[Any]] = [list(r) for r in cfg["target_rows"]]  # committed target rows (model)
+    tgt: list[list[Any]] = []  # committed target rows (model); filled by the set-up INSERT when it runs
     pending: list[list[Any]] | None = None  # target rows inside s0's open transaction
     bys: list[list[Any]] = []
     shapes: list[Any] = []
@@ -259,6 +289,8 @@ def run(case: dict[str, Any]) -> dict[str, Any]:
             if op["k"] == "connect" or tag == "setup":
                 if not out.get("ok"):
                     raise core.HarnessError(f"set-up failed: {out}")
+                if op.get("tgt_rows"):
+                    tgt = [list(r) for r in op["tgt_rows"]]
                 continue
             cur_rows = pending if pending is not None else tgt
             if tag == "begin":
@@ -286,7 +318,9 @@ def run(case: dict[str, Any]) -> dict[str, Any]:
                 m = op["merge"]
                 exp_rows, counts = ref_merge(cur_rows, op["source_rows"], m["clauses"])
                 kinds = [c["kind"] for c in m["clauses"]]
-                conds = [(c["cond"] or {}).get("on") for c in m["clauses"]]
+                conds = [_cond_on(c["cond"]) for c in m["clauses"]]
+                if any(isinstance(c["cond"], dict) and ("or" in c["cond"] or "and" in c["cond"]) for c in m["clauses"]):
+                    P("compound_condition")
                 if "target" in conds:
                     P("cond_on_target")
                 if "source" in conds:
@@ -315,6 +349,8 @@ def run(case: dict[str, Any]) -> dict[str, Any]:
                                        {"sql": op["sql"], "error": out, "target_before": cur_rows, "target_after": got_rows})
                     elif out.get("exc") != "ProgrammingError" and not str(out.get("mod", "")).startswith("snowflake"):
                         pass  # the error class of a constraint violation is not in C12's (nor C07's) list
+                    if violation:
+                        break
                     continue
                 if not out.get("ok"):
                     violation = v_(f"merge-raises/{out.get('exc')}" + ("/target-alias" if "tgt" in op["sql"].split(" USING ")[0].split() else ""),
